@@ -504,14 +504,6 @@ def _run(pid, mod, tier, seed, replay, n_override, scratch, t0, violations, know
         violations.append(path)
         reported += 1
 
-    if proof_failures and not bad_ops:
-        # A theorem / fact obligation no longer checks; search found no failing input.
-        path = write_replay(pid, seed, 0, {
-            "property": pid, "no_failing_input_found": True,
-            "broken_obligations": [{"what": w, "output": t} for (w, t) in proof_failures],
-            "searched": {"operations": len(ops), "counts": counts}})
-        violations.append(path + " no-failing-input-found")
-
     # known findings: print one line per listed finding whose witness still fails
     for kf in known.get("findings", []):
         if kf.get("property") != pid:
@@ -534,6 +526,14 @@ def _run(pid, mod, tier, seed, replay, n_override, scratch, t0, violations, know
                                         build_harness=build_harness, eval_ops=eval_ops, goenv=GOENV,
                                         write_replay=lambda k, payload: write_replay(pid, seed, 100 + k, payload)))
         violations += ex_viol
+
+    if proof_failures and not violations:
+        # A theorem / fact obligation no longer checks; neither the stream nor the plugin's own search found a failing input.
+        path = write_replay(pid, seed, 0, {
+            "property": pid, "no_failing_input_found": True,
+            "broken_obligations": [{"what": w, "output": t} for (w, t) in proof_failures],
+            "searched": {"operations": len(ops), "counts": counts}})
+        violations.append(path + " no-failing-input-found")
 
     # 6. evidence
     fact_obl = getattr(mod, "FACT_OBLIGATIONS", [])
